@@ -1,6 +1,6 @@
 SPECIFICATION TSpec
 CONSTANTS
-  CheckEvery = 1008
+  CheckEvery = 1032
   MaxDepth = 8
   MaxPrint = 100
   MaxRecords = 1
